@@ -5,5 +5,6 @@ CONSTANTS
   MaxMut = 4
   MaxTrav = 2
 CONSTRAINT Bound
+CONSTANT HiddenSets <- NoHidden
 VIEW MCView
-INVARIANTS TypeOK ExactlyOnceNoMutation StableExactlyOnce StrictlyIncreasing NoDuplicates EndsWithEmptyCursor BadCursorRejected PageShape IndexFresh ProbesOK
+INVARIANTS TypeOK HiddenNeverSeen ExactlyOnceNoMutation StableExactlyOnce StrictlyIncreasing NoDuplicates EndsWithEmptyCursor BadCursorRejected PageShape IndexFresh ProbesOK WalkOK
